@@ -90,20 +90,22 @@ theorem optLoop_wf {msg : Bytes} (hb : BytesWF msg) (e : Nat) : ∀ (fuel off : 
         · rename_i l off2 h2
           split at h
           · simp at h
-          · rename_i hlen
-            split at h
-            · rename_i os' hrec
-              simp at h
-              subst h
-              intro p hp
-              simp only [List.mem_cons] at hp
-              rcases hp with rfl | hp
-              · have g2 := u16At_lt hb h2
-                have h3 : ((msg.drop off2).take l).length = l := by
-                  rw [List.length_take, List.length_drop]; omega
-                exact ⟨u16At_lt hb h1, by simp only []; rw [h3]; exact g2⟩
-              · exact ih _ _ hrec p hp
+          · split at h
             · simp at h
+            · rename_i hlen
+              split at h
+              · rename_i os' hrec
+                simp at h
+                subst h
+                intro p hp
+                simp only [List.mem_cons] at hp
+                rcases hp with rfl | hp
+                · have g2 := u16At_lt hb h2
+                  have h3 : ((msg.drop off2).take l).length = l := by
+                    rw [List.length_take, List.length_drop]; omega
+                  exact ⟨u16At_lt hb h1, by simp only []; rw [h3]; exact g2⟩
+                · exact ih _ _ hrec p hp
+              · simp at h
     · simp at h
       subst h
       intro p hp
